@@ -475,6 +475,9 @@ class TradingEnv(gymnasium.Env):
         if self._is_new_date(event.time):
             # 'event' is the first event of the day. Notify that it's a new date
             self.notify(EventNewDate(self._last_event.time, self.broker))
+            # The nested notification left the clock at the previous event.
+            AbstractContract.now = event.time
+            self._now = event.time
         event.notify(self._observers)
         self._last_event = event
 
